@@ -514,7 +514,7 @@ class World(object):
         c = self.conn(a)
         kw = dict(clientId='verif-%d' % a, keepalive=ka, cleanStart=clean, version=VERSIONS.get(ver, ver))
         if extra:
-            kw.update(extra)
+            kw.update(dict(extra))
         prev_phase = self.phase(c)
         nw0 = c.nwrites
         r = self._api('connect', c, dict(clean=clean, ka=ka, ver=ver, extra=extra), lambda r: c.proto.connect(**kw))
